@@ -439,7 +439,7 @@ package ctfe
 //@ at sha assert [hash-over-the-der-key] sha.data == mk.res0
 
 //@ func buildV1SCT
-//@ props C01
+//@ props C01 C06
 //@ site SerializeSCTSignatureInput#1 as ser
 //@ site sha256.Sum256#1 as sha
 //@ site Sign#1 as sg
@@ -555,7 +555,7 @@ package ctfe
 //@ ensures [non-empty-chain-or-error] result1 == nil ==> len(result0.Chain) >= 1
 
 //@ func addChainInternal
-//@ props C01 C08
+//@ props C01 C06 C08
 //@ stable li
 //@ site ParseBodyAsJSONChain#1 as pb
 //@ site verifyAddChain#1 as va
